@@ -11,7 +11,7 @@ def keep(l):
 
 
 def run(ctx):
-    mon = lambda tr, sc: SC.mon_sanity(tr) + [h for h in SC.mon_inbound(tr) if h[0] in ("inbound:ack-before-ownership", "inbound:ack-without-return")]
+    mon = lambda tr, sc: SC.mon_sanity(tr) + [h for h in SC.mon_inbound(tr) if h[0] in ("inbound:ack-before-ownership", "inbound:ack-without-return", "inbound:never-acknowledged")]
     v, stats, hist, samples, nd = SC.run_property(ctx, MODULE, PROFILE, 250, 4000, [mon], keep, length=(10, 34))
     return SC.finish(ctx, v, stats, hist, samples, nd,
                      "inbound streams mixing the three levels and control packets, the application pausing after any return (the harness "
